@@ -12,7 +12,9 @@ import (
 // and as a generic JSON tree whose member names come from the in-toto
 // specification (field table below). The tree is the oracle's view.
 
-var hostileRunes = []string{"\"", "\\", "\n", "\r", "\t", "\x00", "\x01", "\x0b", "\x1f", "\x7f", " ", " ", "<", ">", "&", "é", "日本", "𝄞", "é", "/", " ", "'", "\\n", "\\u0041", "{", "}", "[", "]", ":", ","}
+var hostileRunes = []string{"\"", "\\", "\n", "\r", "\t", "\x00", "\x01", "\x0b", "\x1f", "\x7f", " ", " ", "<", ">", "&", "é", "日本", "𝄞", "é", "/", " ", "'", "\\n", "\\u0041", "{", "}", "[", "]", ":", ",",
+	// the six characters backslash-u-0-0-2-6 (and friends) as they appear in the output of tools that print escaped JSON
+	"\\u0026", "\\u003c", "\\u003e", "\\u003C", "\\\\u0026"}
 
 // Str returns a random string; hostile selects the alphabet with quotes,
 // backslashes, control and non-ASCII characters.
